@@ -127,6 +127,7 @@ func (h *harness) paillier(flipBudget int) {
 	}
 	h.interactive(c, 0, r)
 	h.ringPedersen(flipBudget)
+	h.paillier2048(flipBudget)
 }
 
 // ringPedersen: the ring-Pedersen parameter proof (prm) with a tiny sampled trapdoor key.
